@@ -202,7 +202,8 @@ class G:
                     free = [s for s in range(0, 256) if s not in {v.slot for v in self.vars}]
                     if self.cur_sub is not None:
                         free = [None]
-                    slot = r.choice(free)
+                    # low ids are where the compiler's own numbering starts: requested ids just above the first free id collide first
+                    slot = r.choice(free[:8]) if (free[0] is not None and r.random() < 0.5) else r.choice(free)
                 v = self.new_var(ty, slot)
             else:
                 v = r.choice(cands)
